@@ -38,6 +38,11 @@ nan-before-last-partition; others: empty-partition), else ``any-partitioning``. 
 
 Calibration
 -----------
+* domain decision (lead): the statement says "ffill/bfill with limits", so ``limit=None`` is NOT generated.
+  Without a limit dask deliberately raises ``ValueError("All NaN partition encountered in `fillna` ... or specify
+  `limit`")`` (``methods.fillna_check``) whenever a partition has an all-NaN column or is empty, because its
+  one-row overlap cannot carry a value across a whole partition: a documented guard outside the statement, no
+  finding.  The complete sub-space uses ``bfill(limit=2)`` in place of the bare ``bfill``.
 * pandas has no ``closed=`` in dask's ``Rolling`` signature -> not generated; ``win_type`` not generated.
 * false alarm corrected: the shared ``frames._classify`` calls a per-column value difference "index" because
   pandas prints ``[index]: [...]`` in the message -> ``_kind`` maps those to ``values``.
@@ -65,7 +70,7 @@ PROP = "C46"
 RULE = ("case = (frame seed, rows, index kind, NaN density, partitioning description, optional row filter, "
         "Series/DataFrame target, operation description); complete sub-space first: all 128 compositions of a fixed "
         "8-row frame (fixed NaN pattern) x {rolling(3).sum, cumsum, cummax, shift(1), shift(-2), diff, ffill(limit=1), "
-        "bfill}; then a seed-independent grid for the cumulative family (2 fixed frames x 17 partitionings incl. empty "
+        "bfill(limit=2)}; then a seed-independent grid for the cumulative family (2 fixed frames x 17 partitionings incl. empty "
         "partitions x 6 Series/DataFrame targets x cumsum/cumprod/cummin/cummax x skipna), then seeded random "
         "cases; non-trivial = >= 2 partitions on a non-empty frame; distinct = distinct case descriptions")
 ASSUMPTIONS = [
@@ -91,10 +96,10 @@ FLOORS = {
 }
 EXHAUSTIVE_SPACE = {
     "quick": "all 128 compositions of an 8-row frame (fixed NaN pattern, from_delayed with divisions) x "
-             "{rolling(3).sum, cumsum, cummax, shift(1), shift(-2), diff, ffill(limit=1), bfill}",
+             "{rolling(3).sum, cumsum, cummax, shift(1), shift(-2), diff, ffill(limit=1), bfill(limit=2)}",
     "thorough": "all 128 compositions of an 8-row frame (fixed NaN pattern) x {from_delayed(divisions), "
                 "from_pandas(1).repartition(divisions)} x {rolling(3).sum, cumsum, cummax, shift(1), shift(-2), diff, "
-                "ffill(limit=1), bfill} x {DataFrame, Series}",
+                "ffill(limit=1), bfill(limit=2)} x {DataFrame, Series}",
 }
 CLAIM = ("Every generated rolling / cumulative / shift / diff / fill / map_overlap program gave, on every generated "
          "partitioning with known divisions (all compositions of a small frame, random compositions with single-row "
@@ -144,8 +149,6 @@ PENDING = {
     "cumsum-cumprod:frame[float+int]:dtype":
         "DataFrame.cumsum/cumprod: int columns come back float64 when the frame also has a float column (>= 2 partitions)",
     # --- others
-    "ffill-bfill:limit=None:ValueError@dataframe/methods.py:fillna_check":
-        "ffill()/bfill() without limit raise 'All NaN partition encountered' when a partition has an all-NaN column or is empty",
     "rolling:time-window&center:TypeError@dataframe/dask_expr/_rolling.py:_lower":
         "rolling('10min', center=True): TypeError 'str' // 'int' (pandas supports centered time windows)",
 }
@@ -158,7 +161,7 @@ EX_OPS = (
     {"op": "shift", "periods": -2, "freq": None},
     {"op": "diff", "periods": 1},
     {"op": "fill", "fn": "ffill", "limit": 1},
-    {"op": "fill", "fn": "bfill", "limit": None},
+    {"op": "fill", "fn": "bfill", "limit": 2},
 )
 GRID_PARTS = (([4, 4], []), ([1, 7], []), ([3, 1, 4], []), ([2, 2, 4], []), ([1, 1, 6], []), ([3, 5], []),
               ([7, 1], []), ([1] * 8, []), ([8], []), ([4, 4], [1]), ([4, 4], [0]), ([2, 3, 3], [1, 3]), ([4, 4], [2]),
@@ -252,7 +255,7 @@ def _rand_op(rng, index, n):
     if k == "diff":
         return {"op": k, "periods": rng.choice((-3, -2, -1, -1, 1, 1, 2, 3))}
     if k == "fill":
-        return {"op": k, "fn": rng.choice(("ffill", "bfill")), "limit": rng.choice((None, None, 1, 1, 2, 3))}
+        return {"op": k, "fn": rng.choice(("ffill", "bfill")), "limit": rng.choice((1, 1, 2, 2, 3, 5))}
     if k == "pct_change":
         return {"op": k, "periods": rng.choice((1, 1, 2, -1))}
     kinds = ["rollsum", "shiftneg", "diff", "center", "fillboth"] + (["timeroll"] * 2 if dt else [])
